@@ -1,1 +1,520 @@
-// Correspondence suites for property C03. Each suite is a #[test] fn named verif_c03_<suite>.
+// Correspondence suites for property C03 (DZKP multiplication proofs).
+//
+//   c03_table     real TABLE_U / TABLE_V rows, all 64 products, the three constants           (exhaustive)
+//   c03_indices   real table_indices_prover / _from_right_prover / _from_left_prover on blocks
+//   c03_hash      real hash_to_field (SHA-256 output passed to the model)
+//   c03_validate  real DZKPValidator::validate / validate_record under TestWorld malicious contexts:
+//                 honest batches, and one helper deviating in exactly one recorded / transmitted bit
+// (c03_lagrange / c03_proof live in hooks/ipa_prf.rs: they need the private malicious_security module.)
+use std::iter::zip;
+
+use bitvec::prelude::{BitVec, Lsb0};
+use futures::{StreamExt, TryStreamExt, stream};
+use generic_array::GenericArray;
+use super::proto::*;
+use crate::{
+    error::Error,
+    ff::{Field, Fp61BitPrime, PrimeField, Serializable, U128Conversions, boolean::Boolean},
+    helpers::{
+        Direction,
+        hashing::{compute_hash, hash_to_field},
+    },
+    protocol::{
+        RecordId,
+        basics::SecureMul,
+        context::{
+            Context, DZKPUpgradedMaliciousContext, TEST_DZKP_STEPS, UpgradableContext,
+            dzkp_field::{DZKPBaseField, DZKPCompatibleField, TABLE_U, TABLE_V},
+            dzkp_validator::{DZKPValidator, MultiplicationInputsBlock, Segment, SegmentEntry},
+        },
+        prss::SharedRandomness,
+    },
+    secret_sharing::{
+        FieldSimd, SharedValue, SharedValueArray, Vectorizable,
+        replicated::semi_honest::AdditiveShare as Replicated,
+    },
+    seq_join::{SeqJoin, seq_join},
+    sharding::NotSharded,
+    test_fixture::{TestWorld, TestWorldConfig},
+};
+
+// ------------------------------------------------------------------------------------------- table
+
+fn exec_table(req: &str) -> String {
+    let t: Vec<&str> = req.split(' ').collect();
+    match t[0] {
+        "c03.consts" => format!(
+            "{} {} {}",
+            Fp61BitPrime::INVERSE_OF_TWO.as_u128(),
+            Fp61BitPrime::MINUS_ONE_HALF.as_u128(),
+            Fp61BitPrime::MINUS_TWO.as_u128()
+        ),
+        "c03.table" => {
+            let tb = if t[1] == "U" { &TABLE_U } else { &TABLE_V };
+            (0..8usize)
+                .map(|i| nat_list(&tb[i].iter().map(|x| x.as_u128()).collect::<Vec<_>>()))
+                .collect::<Vec<_>>()
+                .join(";")
+        }
+        "c03.tableprod" => {
+            let i: usize = t[1].parse().unwrap();
+            let j: usize = t[2].parse().unwrap();
+            let mut acc = Fp61BitPrime::ZERO;
+            for k in 0..4 {
+                acc += TABLE_U[i][k] * TABLE_V[j][k];
+            }
+            acc.as_u128().to_string()
+        }
+        _ => panic!("harness: unknown request {req}"),
+    }
+}
+
+#[test]
+fn verif_c03_table() {
+    run_suite(
+        "c03_table",
+        |_rng, _thorough| {
+            let mut v = vec!["c03.consts".to_string(), "c03.table U".into(), "c03.table V".into()];
+            for i in 0..8 {
+                for j in 0..8 {
+                    v.push(format!("c03.tableprod {i} {j}"));
+                }
+            }
+            v
+        },
+        exec_table,
+    );
+}
+
+// ----------------------------------------------------------------------------------------- indices
+
+fn block_from(args: &[&str]) -> MultiplicationInputsBlock {
+    let a = |s: &str| -> [u8; 32] { unhex(s).try_into().expect("32 bytes") };
+    MultiplicationInputsBlock {
+        x_left: a(args[0]).into(),
+        x_right: a(args[1]).into(),
+        y_left: a(args[2]).into(),
+        y_right: a(args[3]).into(),
+        prss_left: a(args[4]).into(),
+        prss_right: a(args[5]).into(),
+        z_right: a(args[6]).into(),
+    }
+}
+
+fn digits(xs: impl Iterator<Item = u8>) -> String {
+    xs.map(|d| char::from(b'0' + d)).collect()
+}
+
+fn exec_indices(req: &str) -> String {
+    let t: Vec<&str> = req.split(' ').collect();
+    let b = block_from(&t[2..]);
+    match t[1] {
+        "prover" => {
+            let l = b.table_indices_prover();
+            format!("{} {}", digits(l.iter().map(|p| p.0)), digits(l.iter().map(|p| p.1)))
+        }
+        "right" => digits(b.table_indices_from_right_prover().into_iter()),
+        "left" => digits(b.table_indices_from_left_prover().into_iter()),
+        w => panic!("harness: unknown indices fn {w}"),
+    }
+}
+
+#[test]
+fn verif_c03_indices() {
+    run_suite(
+        "c03_indices",
+        |rng, thorough| {
+            let mut blocks: Vec<[[u8; 32]; 7]> = vec![[[0u8; 32]; 7], [[0xffu8; 32]; 7]];
+            // one field all ones, others zero; byte patterns 0x55 / 0xaa / 0x33 / 0xcc / 0x0f / 0xf0
+            for f in 0..7 {
+                let mut b = [[0u8; 32]; 7];
+                b[f] = [0xff; 32];
+                blocks.push(b);
+            }
+            for pat in [0x55u8, 0xaa, 0x33, 0xcc, 0x0f, 0xf0, 0x01, 0x80] {
+                for f in 0..7 {
+                    let mut b = [[0u8; 32]; 7];
+                    b[f] = [pat; 32];
+                    b[(f + 3) % 7] = [!pat; 32];
+                    blocks.push(b);
+                }
+            }
+            // one-hot: a single set bit in a single field, every position in thorough, edges + random otherwise
+            let positions: Vec<usize> = if thorough {
+                (0..256).collect()
+            } else {
+                let mut p = vec![0, 1, 2, 3, 4, 7, 8, 63, 64, 124, 125, 126, 127, 128, 129, 130, 131, 191, 192, 252, 253, 254, 255];
+                for _ in 0..12 {
+                    p.push(rng.usize_below(256));
+                }
+                p
+            };
+            for &pos in &positions {
+                for f in 0..7 {
+                    let mut b = [[0u8; 32]; 7];
+                    b[f][pos / 8] = 1 << (pos % 8);
+                    blocks.push(b);
+                }
+                // all fields set at this position (index 7 / consistent e) and all-but-position
+                let mut b = [[0u8; 32]; 7];
+                for f in 0..7 {
+                    b[f][pos / 8] = 1 << (pos % 8);
+                }
+                blocks.push(b);
+            }
+            for _ in 0..(if thorough { 600 } else { 60 }) {
+                let mut b = [[0u8; 32]; 7];
+                for f in 0..7 {
+                    b[f].copy_from_slice(&rng.bytes(32));
+                }
+                blocks.push(b);
+            }
+            let mut out = vec![];
+            for b in blocks {
+                let args = b.iter().map(|x| hex(x)).collect::<Vec<_>>().join(" ");
+                for w in ["prover", "right", "left"] {
+                    out.push(format!("c03.indices {w} {args}"));
+                }
+            }
+            out
+        },
+        exec_indices,
+    );
+}
+
+// -------------------------------------------------------------------------------------------- hash
+
+fn f61(v: u128) -> Fp61BitPrime {
+    Fp61BitPrime::truncate_from(v)
+}
+
+fn exec_hash(req: &str) -> String {
+    let t: Vec<&str> = req.split(' ').collect();
+    let l: Vec<Fp61BitPrime> = parse_nat_list::<u128>(t[1]).into_iter().map(f61).collect();
+    let r: Vec<Fp61BitPrime> = parse_nat_list::<u128>(t[2]).into_iter().map(f61).collect();
+    let (hl, hr) = (compute_hash(&l), compute_hash(&r));
+    let combined = compute_hash([&hl, &hr]);
+    let mut buf = GenericArray::default();
+    combined.serialize(&mut buf);
+    if hex(&buf) != t[3] {
+        return "hash-mismatch".into();
+    }
+    let ex: u128 = t[4].parse().unwrap();
+    hash_to_field::<Fp61BitPrime>(&hl, &hr, ex).as_u128().to_string()
+}
+
+#[test]
+fn verif_c03_hash() {
+    run_suite(
+        "c03_hash",
+        |rng, thorough| {
+            let p = Fp61BitPrime::PRIME as u128;
+            let mut out = vec![];
+            let n = if thorough { 4000 } else { 300 };
+            for k in 0..n {
+                let len = 1 + rng.usize_below(7);
+                let l: Vec<u128> = (0..len).map(|_| rng.next_u128() % p).collect();
+                let r: Vec<u128> = (0..len).map(|_| rng.next_u128() % p).collect();
+                let hl = compute_hash(&l.iter().map(|&x| f61(x)).collect::<Vec<Fp61BitPrime>>());
+                let hr = compute_hash(&r.iter().map(|&x| f61(x)).collect::<Vec<Fp61BitPrime>>());
+                let combined = compute_hash([&hl, &hr]);
+                let mut buf = GenericArray::default();
+                combined.serialize(&mut buf);
+                let ex: u128 = match k % 8 {
+                    0 => 0,
+                    1 => 1,
+                    2 => 32,
+                    3 => (p - 1) / 2,
+                    4 => (p + 1) / 2, // 2*ex >= p: the assertion fires
+                    _ => 4,
+                };
+                out.push(format!("c03.hash2field {} {} {} {ex}", nat_list(&l), nat_list(&r), hex(&buf)));
+            }
+            out
+        },
+        exec_hash,
+    );
+}
+
+// ---------------------------------------------------------------------------------------- validate
+
+#[derive(Clone, Copy, Debug)]
+struct Dev {
+    helper: usize,
+    field: usize, // 0..7 = xl xr yl yr pl pr zr ; 7 = transmitted z
+    record: usize,
+    bit: usize,
+}
+
+const FIELD_NAMES: [&str; 8] = ["xl", "xr", "yl", "yr", "pl", "pr", "zr", "z"];
+
+fn parse_dev(s: &str) -> Option<Dev> {
+    if s == "-" {
+        return None;
+    }
+    let p: Vec<&str> = s.split(':').collect();
+    Some(Dev {
+        helper: p[0].parse().unwrap(),
+        field: FIELD_NAMES.iter().position(|n| *n == p[1]).expect("field"),
+        record: p[2].parse().unwrap(),
+        bit: p[3].parse().unwrap(),
+    })
+}
+
+/// What a deviating helper runs instead of `zkp_multiply`: the same protocol on the real context
+/// (real PRSS, real channels, real `push`), except that exactly one bit of one recorded intermediate,
+/// or of the `z` it transmits, is flipped.
+async fn deviating_multiply<const N: usize>(
+    ctx: DZKPUpgradedMaliciousContext<'_, NotSharded>,
+    record_id: RecordId,
+    a: &Replicated<Boolean, N>,
+    b: &Replicated<Boolean, N>,
+    dev: Dev,
+) -> Result<Replicated<Boolean, N>, Error>
+where
+    Boolean: FieldSimd<N> + DZKPCompatibleField<N>,
+{
+    let role = ctx.role();
+    let (prss_left, prss_right) = ctx
+        .prss()
+        .generate::<(<Boolean as Vectorizable<N>>::Array, _), _>(record_id);
+    let z_left = a.left_arr().clone() * b.left_arr()
+        + a.left_arr().clone() * b.right_arr()
+        + a.right_arr().clone() * b.left_arr()
+        + &prss_left
+        - &prss_right;
+    let mut z_send = z_left.clone();
+    if dev.field == 7 {
+        // flip one bit of the transmitted share
+        let mut bits: Vec<Boolean> = z_send.clone().into_iter().collect();
+        bits[dev.bit] = Boolean::from(!bool::from(bits[dev.bit]));
+        z_send = <<Boolean as Vectorizable<N>>::Array>::try_from(bits).ok().expect("rebuild flipped z");
+    }
+    ctx.send_channel::<<Boolean as Vectorizable<N>>::Array>(role.peer(Direction::Left))
+        .send(record_id, &z_send)
+        .await?;
+    let z_right: <Boolean as Vectorizable<N>>::Array = ctx
+        .recv_channel(role.peer(Direction::Right))
+        .receive(record_id)
+        .await?;
+    let z = Replicated::<Boolean, N>::new_arr(z_left, z_right);
+
+    let mut bvs: Vec<BitVec<u8, Lsb0>> = [
+        Boolean::as_segment_entry(a.left_arr()),
+        Boolean::as_segment_entry(a.right_arr()),
+        Boolean::as_segment_entry(b.left_arr()),
+        Boolean::as_segment_entry(b.right_arr()),
+        Boolean::as_segment_entry(&prss_left),
+        Boolean::as_segment_entry(&prss_right),
+        Boolean::as_segment_entry(z.right_arr()),
+    ]
+    .into_iter()
+    .map(|e| e.as_bitslice().to_bitvec())
+    .collect();
+    if dev.field < 7 {
+        let cur = bvs[dev.field][dev.bit];
+        bvs[dev.field].set(dev.bit, !cur);
+    }
+    let segment = Segment::from_entries(
+        SegmentEntry::from_bitslice(&bvs[0]),
+        SegmentEntry::from_bitslice(&bvs[1]),
+        SegmentEntry::from_bitslice(&bvs[2]),
+        SegmentEntry::from_bitslice(&bvs[3]),
+        SegmentEntry::from_bitslice(&bvs[4]),
+        SegmentEntry::from_bitslice(&bvs[5]),
+        SegmentEntry::from_bitslice(&bvs[6]),
+    );
+    ctx.push(record_id, segment);
+    Ok(z)
+}
+
+fn verdict(r: &Result<(), Error>) -> String {
+    match r {
+        Ok(()) => "ok".into(),
+        Err(Error::DZKPValidationFailed | Error::ParallelDZKPValidationFailed) => "fail".into(),
+        Err(e) => format!("err:{}", canon(&format!("{e:?}")).replace([' ', ','], "_")),
+    }
+}
+
+async fn run_validate<const N: usize>(api: &str, count: usize, mpg: usize, seed: u64, dev: Option<Dev>) -> String
+where
+    Boolean: FieldSimd<N> + DZKPCompatibleField<N>,
+{
+    let mut rng = Rng(seed ^ 0xC03);
+    // replicated sharings of random x and y: helper i holds (s_i, s_{i+1})
+    let mut xs: [Vec<Replicated<Boolean, N>>; 3] = [vec![], vec![], vec![]];
+    let mut ys: [Vec<Replicated<Boolean, N>>; 3] = [vec![], vec![], vec![]];
+    for _ in 0..count {
+        let sx: [<Boolean as Vectorizable<N>>::Array; 3] =
+            std::array::from_fn(|_| SharedValueArray::from_fn(|_| Boolean::from(rng.bool())));
+        let sy: [<Boolean as Vectorizable<N>>::Array; 3] =
+            std::array::from_fn(|_| SharedValueArray::from_fn(|_| Boolean::from(rng.bool())));
+        for i in 0..3 {
+            xs[i].push(Replicated::new_arr(sx[i].clone(), sx[(i + 1) % 3].clone()));
+            ys[i].push(Replicated::new_arr(sy[i].clone(), sy[(i + 1) % 3].clone()));
+        }
+    }
+    let config = TestWorldConfig::default().with_seed(seed).with_timeout_secs(60);
+    let world = TestWorld::<NotSharded>::with_config(&config);
+    let single = api == "single";
+    let futs = world
+        .malicious_contexts()
+        .into_iter()
+        .zip(zip(xs, ys))
+        .enumerate()
+        .map(|(h, (ctx, (x, y)))| async move {
+            let v = ctx
+                .set_total_records(count)
+                .dzkp_validator(TEST_DZKP_STEPS, if single { usize::MAX } else { mpg });
+            let m_ctx = v.context();
+            let work = stream::iter(zip(x, y)).enumerate().map(|(i, (a, b))| {
+                let m_ctx = m_ctx.clone();
+                async move {
+                    match dev {
+                        Some(d) if d.helper == h && d.record == i => {
+                            deviating_multiply::<N>(m_ctx, RecordId::from(i), &a, &b, d).await
+                        }
+                        _ => a.multiply(&b, m_ctx, RecordId::from(i)).await,
+                    }
+                }
+            });
+            if single {
+                let r: Result<Vec<_>, Error> = seq_join(m_ctx.active_work(), work).try_collect().await;
+                match r {
+                    Ok(_) => verdict(&v.validate().await),
+                    Err(e) => verdict(&Err(e)),
+                }
+            } else {
+                let r: Result<Vec<_>, Error> = v.validated_seq_join(work).try_collect().await;
+                verdict(&r.map(|_| ()))
+            }
+        })
+        .collect::<Vec<_>>();
+    futures::future::join_all(futs).await.join(",")
+}
+
+fn exec_validate(req: &str) -> String {
+    let t: Vec<&str> = req.split(' ').collect();
+    let (api, ty) = (t[1].to_string(), t[2]);
+    let count: usize = t[3].parse().unwrap();
+    let mpg: usize = t[4].parse().unwrap();
+    let seed: u64 = t[5].parse().unwrap();
+    let dev = parse_dev(t[6]);
+    macro_rules! go {
+        ($n:literal) => {
+            block_on_timeout(120, run_validate::<$n>(&api, count, mpg, seed, dev))
+        };
+    }
+    let r = match ty {
+        "b1" => go!(1),
+        "ba3" => go!(3),
+        "ba5" => go!(5),
+        "ba8" => go!(8),
+        "ba16" => go!(16),
+        "ba20" => go!(20),
+        "ba32" => go!(32),
+        "ba64" => go!(64),
+        "ba256" => go!(256),
+        _ => panic!("harness: unknown type {ty}"),
+    };
+    match r {
+        Ok(s) => s,
+        Err(e) => e,
+    }
+}
+
+fn width(ty: &str) -> usize {
+    ty.trim_start_matches("ba").trim_start_matches('b').parse().unwrap()
+}
+
+#[test]
+fn verif_c03_validate() {
+    run_suite(
+        "c03_validate",
+        |rng, thorough| {
+            let mut out = vec![];
+            let types = ["b1", "ba3", "ba5", "ba8", "ba16", "ba20", "ba32", "ba64", "ba256"];
+            // honest, single-shot validation: sizes 1 .. past several recursion boundaries.
+            // (padded) multiplications per gate = ceil(count * next_pow2(width) / 256) * 256;
+            // 256 = 4^4, 1024 = 4^5, 4096 = 4^6 are exact powers of the recursion factor.
+            for ty in types {
+                let w = width(ty).next_power_of_two();
+                let per_block = (256 / w).max(1);
+                let mut counts = vec![1usize, 2, per_block, per_block + 1];
+                if w == 256 {
+                    counts.extend_from_slice(&[3, 4, 5, 15, 16, 17]);
+                } else {
+                    counts.extend_from_slice(&[4 * per_block, 4 * per_block + 1]);
+                    if thorough {
+                        counts.extend_from_slice(&[16 * per_block, 16 * per_block + 1]);
+                    }
+                }
+                counts.sort_unstable();
+                counts.dedup();
+                for c in counts {
+                    if c > 3000 && !thorough {
+                        continue;
+                    }
+                    out.push(format!("c03.validate single {ty} {c} {c} {} -", rng.below(1 << 30)));
+                }
+            }
+            // honest, validate_record API: several batches (records_per_batch a power of two)
+            for (ty, count, mpg) in [
+                ("b1", 10, 1), ("b1", 9, 2), ("b1", 257, 128), ("ba3", 7, 4), ("ba8", 33, 16), ("ba8", 64, 32),
+                ("ba20", 12, 4), ("ba32", 17, 8), ("ba64", 9, 4), ("ba256", 6, 2), ("ba256", 5, 1), ("ba16", 40, 8),
+            ] {
+                out.push(format!("c03.validate record {ty} {count} {mpg} {} -", rng.below(1 << 30)));
+            }
+            if thorough {
+                for _ in 0..40 {
+                    let ty = *rng.pick(&types);
+                    let count = 2 + rng.usize_below(200);
+                    let mpg = 1usize << rng.usize_below(count.min(128).ilog2() as usize + 1);
+                    out.push(format!("c03.validate record {ty} {count} {mpg} {} -", rng.below(1 << 30)));
+                }
+            }
+            // one helper deviates in exactly one bit: every (helper, field) pair, single-shot validation
+            for h in 0..3 {
+                for f in FIELD_NAMES {
+                    let ty = *rng.pick(&types);
+                    let w = width(ty);
+                    let count = 1 + rng.usize_below(2 * (256 / w.next_power_of_two()).max(1) + 3);
+                    let rec = rng.usize_below(count);
+                    let bit = rng.usize_below(w);
+                    out.push(format!("c03.validate single {ty} {count} {count} {} {h}:{f}:{rec}:{bit}", rng.below(1 << 30)));
+                }
+            }
+            // boundary positions: first/last record, first/last bit, multi-block batches, both APIs
+            let reps = if thorough { 12 } else { 2 };
+            for k in 0..reps {
+                for (ty, count, mpg, api) in [
+                    ("b1", 300, 300, "single"), ("ba256", 5, 5, "single"), ("ba8", 40, 8, "record"),
+                    ("ba64", 9, 4, "record"), ("ba3", 70, 70, "single"), ("b1", 6, 2, "record"),
+                ] {
+                    let w = width(ty);
+                    let h = rng.usize_below(3);
+                    let f = FIELD_NAMES[rng.usize_below(8)];
+                    // record API: deviate in the last batch so that the honest helpers have nothing left to wait for
+                    let last_batch_start = if api == "record" { (count - 1) / mpg * mpg } else { 0 };
+                    let rec = match k % 3 {
+                        0 => count - 1,
+                        1 => last_batch_start,
+                        _ => last_batch_start + rng.usize_below(count - last_batch_start),
+                    };
+                    let bit = match k % 4 { 0 => 0, 1 => w - 1, _ => rng.usize_below(w) };
+                    out.push(format!("c03.validate {api} {ty} {count} {mpg} {} {h}:{f}:{rec}:{bit}", rng.below(1 << 30)));
+                }
+            }
+            if thorough {
+                // all 256 bit positions of a full block (ba256), rotating helper and field
+                for bit in 0..256usize {
+                    let h = bit % 3;
+                    let f = FIELD_NAMES[bit % 8];
+                    out.push(format!("c03.validate single ba256 2 2 {} {h}:{f}:{}:{bit}", rng.below(1 << 30), bit % 2));
+                }
+            }
+            out
+        },
+        exec_validate,
+    );
+}
